@@ -106,9 +106,12 @@ def run_real(src, hist):
         if k:
             # frame: a call on module i leaves the printed program of every OTHER module exactly as it was
             after = texts()
-            pi = hist[k - 1][0]
+            prev = hist[k - 1]
+            pi = prev[0]
+            # ... and a call that returns a new module (copy, in_place=False) leaves its own receiver as it was, too
+            keeps_receiver = prev[1] == "copy" or (len(prev) > 2 and not prev[2])
             for j, (a, b) in enumerate(zip(before, after)):
-                if j != pi and a != b and len(run_real.frames) < 3:
+                if (j != pi or keeps_receiver) and a != b and len(run_real.frames) < 3:
                     run_real.frames.append({"after_call": k - 1, "call": list(hist[k - 1]), "changed_module": j, "before": a, "after": b})
             before = after
         i, name = op[0], op[1]
